@@ -24,8 +24,9 @@ import (
 //	    back      Unmarshal(Marshal(v)); parsed  Unmarshal(specification's text)
 //	    d1        FieldDescriptor.Default after protodesc.NewFile of a file whose default_value is the text
 //	    d2        ... after ToFileDescriptorProto and NewFile again          (fmt = "desc" only)
-//	{op: "sweep32", sign, exp, start, stride, count} -> {n, fails: [bits...]}   all mantissas start, start+stride, ... of one
-//	    (sign, exponent) stratum of float32 through Marshal/Unmarshal in both formats
+//	    x1, x2    the same for an extension field carrying the same default
+//	{op: "sweep32", sign, ex, start, stride, count} -> {n, fails: [bits...]}   all mantissas start, start+stride, ... of one
+//	    (sign, exponent ex) stratum of float32 through Marshal/Unmarshal in both formats ("exp" is the tour's expectation key)
 //
 // Values travel as little-endian byte arrays; NaN results are reported as the canonical quiet NaN
 // (C39: "all NaNs equal").
@@ -169,7 +170,15 @@ func fileFor(kind string, e enumSpec, def *string) *descriptorpb.FileDescriptorP
 		fd.EnumType = append(fd.EnumType, ed)
 		f.TypeName = proto.String(".verif.defval.E")
 	}
-	fd.MessageType = append(fd.MessageType, &descriptorpb.DescriptorProto{Name: proto.String("M"), Field: []*descriptorpb.FieldDescriptorProto{f}})
+	// the same default on an extension field (resolved by a separate code path of protodesc)
+	x := proto.Clone(f).(*descriptorpb.FieldDescriptorProto)
+	x.Name, x.JsonName, x.Number, x.Extendee = proto.String("x"), nil, proto.Int32(100), proto.String(".verif.defval.M")
+	fd.Extension = append(fd.Extension, x)
+	fd.MessageType = append(fd.MessageType, &descriptorpb.DescriptorProto{
+		Name:           proto.String("M"),
+		Field:          []*descriptorpb.FieldDescriptorProto{f},
+		ExtensionRange: []*descriptorpb.DescriptorProto_ExtensionRange{{Start: proto.Int32(100), End: proto.Int32(200)}},
+	})
 	return fd
 }
 
@@ -234,6 +243,7 @@ func defvalExec(c core.Case) core.Case {
 		// the default through descriptors: NewFile, ToFileDescriptorProto, NewFile
 		if format == defval.Descriptor {
 			out["has"], out["d1"], out["d2"], out["s2same"] = false, []any{}, []any{}, false
+			out["x1"], out["x2"] = []any{}, []any{}
 			f1, err := protodesc.NewFile(fileFor(kind, es, proto.String(text)), nil)
 			if err != nil {
 				out["derr"] = err.Error()
@@ -242,6 +252,7 @@ func defvalExec(c core.Case) core.Case {
 			fld := f1.Messages().Get(0).Fields().Get(0)
 			out["has"] = fld.HasDefault()
 			out["d1"] = fromValue(kind, fld.Default())
+			out["x1"] = fromValue(kind, f1.Extensions().Get(0).Default())
 			p2 := protodesc.ToFileDescriptorProto(f1)
 			f2, err := protodesc.NewFile(p2, nil)
 			if err != nil {
@@ -249,13 +260,14 @@ func defvalExec(c core.Case) core.Case {
 				break
 			}
 			fld2 := f2.Messages().Get(0).Fields().Get(0)
-			out["has"] = fld.HasDefault() && fld2.HasDefault()
+			out["has"] = fld.HasDefault() && fld2.HasDefault() && f1.Extensions().Get(0).HasDefault() && f2.Extensions().Get(0).HasDefault()
 			out["d2"] = fromValue(kind, fld2.Default())
+			out["x2"] = fromValue(kind, f2.Extensions().Get(0).Default())
 			p3 := protodesc.ToFileDescriptorProto(f2)
 			out["s2same"] = p3.MessageType[0].Field[0].GetDefaultValue() == p2.MessageType[0].Field[0].GetDefaultValue()
 		}
 	case "sweep32":
-		sign, exp := uint32(core.Int(c["sign"])), uint32(core.Int(c["exp"]))
+		sign, exp := uint32(core.Int(c["sign"])), uint32(core.Int(c["ex"]))
 		start, stride, count := uint32(core.Int(c["start"])), uint32(core.Int(c["stride"])), core.Int(c["count"])
 		fails := []any{}
 		n := 0
